@@ -71,6 +71,22 @@ macro_rules! uniform_harnesses {
                 assert!(it.next().is_none(), "C05: UniformModel symbol_table has extra rows");
             }
 
+            /// C05: the symbol table of the FULL alphabet at this precision (range == 2^P, where the bin count does
+            /// not fit the probability type when P == its width) has exactly 2^P rows, each the encoder view.
+            #[cfg_attr(kani, kani::proof)]
+            #[cfg_attr(kani, kani::unwind(260))]
+            pub fn table_full() {
+                let range: usize = TOTAL as usize;
+                let m = UniformModel::<Pr, P>::new(range);
+                let k: usize = any(); assume(k < range);
+                let mut it = m.symbol_table();
+                let mut i = 0usize; let mut row = it.next();
+                while i < k { row = it.next(); i += 1; }
+                let (c, p) = m.left_cumulative_and_probability(k).unwrap();
+                assert!(row == Some((k, c, p)), "C05: UniformModel symbol_table row differs from the encoder view (full alphabet)");
+                cover!(k == range - 1, "last row");
+            }
+
             /// C19: ranges 0, 1 and > 2^P are refused (panic), never turned into a model.
             #[cfg_attr(kani, kani::proof)]
             #[cfg_attr(kani, kani::unwind(4))]
@@ -693,6 +709,56 @@ pub fn quantizer_search_i8_wide_tails() {
     assert!(s >= lo && s <= hi, "C10/C03: quantised model decoded a symbol outside its support");
     assert!(c <= q && (q as u32) < c as u32 + p.get() as u32, "C03: quantile not inside the interval returned by the quantised model");
     assert!(m.left_cumulative_and_probability(s) == Some((c, p)), "C03: quantised quantile_function disagrees with the encoder view");
+}
+
+/// C10 / C03 (bounded: step CDFs, exact inverse hint): decoding with a quantised model over a signed
+/// symbol type narrower than the probability type and a support wider than half the symbol type:
+/// for every symbol of the support, the quantile at the start of its interval decodes back to it
+/// without overflow.
+#[cfg_attr(kani, kani::proof)]
+#[cfg_attr(kani, kani::unwind(12))]
+pub fn quantizer_decode_i8_u16_wide() {
+    let t: i16 = any();
+    let s: i8 = any(); assume(s >= -100 && s <= 100);
+    let m = LeakyQuantizer::<f64, i8, u16, 12>::new(-100..=100).quantize(StepCdf { t: t as f64, hint: s as f64 });
+    let (c, p) = match m.left_cumulative_and_probability(s) { Some(x) => x, None => { assert!(false, "C03: quantised model reports an in-support symbol as impossible"); return; } };
+    let (sq, cq, pq) = m.quantile_function(c);
+    assert!(sq == s && cq == c && pq == p, "C10/C03: quantised model does not decode the start of a symbol's interval back to that symbol");
+    cover!(s > 27, "symbol - min exceeds i8::MAX");
+}
+
+/// C20: models are generic over caller-supplied types; a caller's `AsRef<[F]>` that answers
+/// differently from call to call, or a `Distribution` that is not monotone, is safe code and must
+/// lead to a wrong answer or a panic at worst, never to an unchecked access out of bounds or a zero
+/// inside a non-zero probability.
+pub struct FlakyPmf { pub calls: core::cell::Cell<u8>, pub long: [f32; 3], pub short: [f32; 1] }
+impl AsRef<[f32]> for FlakyPmf {
+    fn as_ref(&self) -> &[f32] { let k = self.calls.get(); self.calls.set(k.wrapping_add(1)); if k % 2 == 0 { &self.long } else { &self.short } }
+}
+#[cfg_attr(kani, kani::proof)]
+#[cfg_attr(kani, kani::unwind(8))]
+pub fn lazy_flaky_pmf() {
+    const P: usize = 8;
+    let pmf = FlakyPmf { calls: core::cell::Cell::new(any()), long: [1.0, 1.0, 2.0], short: [1.0] };
+    if let Ok(l) = LazyContiguousCategoricalEntropyModel::<u8, f32, FlakyPmf, P>::from_floating_point_probabilities_fast(pmf, None) {
+        let s: usize = any();
+        if group(2) == 0 { let _ = l.left_cumulative_and_probability(s); } else { let q: u8 = any(); let _ = l.quantile_function(q); }
+    }
+}
+/// non-monotone "CDF": arbitrary values at the points queried
+pub struct WildCdf { pub a: f64, pub b: f64, pub cut: f64 }
+impl Distribution for WildCdf { type Value = f64; fn distribution(&self, x: f64) -> f64 { if x < self.cut { self.a } else { self.b } } }
+impl Inverse for WildCdf { fn inverse(&self, _p: f64) -> f64 { self.cut } }
+#[cfg_attr(kani, kani::proof)]
+#[cfg_attr(kani, kani::unwind(8))]
+pub fn quantizer_wild_distribution() {
+    const V: [f64; 4] = [0.0, 0.25, 0.5, 1.0];
+    let i: u8 = any(); let j: u8 = any(); assume(i < 4 && j < 4);
+    let cut: i8 = any();
+    let m = LeakyQuantizer::<f64, i8, u8, 8>::new(-4..=3).quantize(WildCdf { a: V[i as usize], b: V[j as usize], cut: cut as f64 });
+    let s: i8 = any();
+    if let Some((_c, p)) = m.left_cumulative_and_probability(s) { assert!(p.get() != 0, "C20: a zero value inside a non-zero probability type (quantised model over a non-monotone distribution)"); }
+    cover!(i > j, "decreasing step");
 }
 
 /// C19: float table constructors refuse NaN and negative entries whatever normalisation the caller
